@@ -56,7 +56,7 @@ def build_fragment(f, cls, tag, exact_dir=None):
         dv = np.array(d, dtype=float)
         if np.linalg.norm(dv) < 1e-3:
             dv = np.array([0.3, -0.5, 0.8])
-        dv = dv / np.linalg.norm(dv) * 1.1
+        dv = dv / np.linalg.norm(dv) * f.get("ap_len", 1.1)     # the two fragments' attachment bonds need not be equally long
         if exact_dir is not None:
             dv = np.array(exact_dir, dtype=float)
         atoms.append(Atom(element=0, atype=AtomType.AttachmentPoint, label=f"{tag}AP{k}"))
@@ -298,6 +298,7 @@ def _frag(max_n, n_aps=(1, 1)):
         "els": st.lists(st.integers(0, 9), min_size=10, max_size=10),
         "aps": st.lists(st.tuples(st.integers(0, 9), st.lists(st.floats(-1, 1), min_size=3, max_size=3)).map(list), min_size=n_aps[0], max_size=n_aps[1]),
         "charge": st.integers(-2, 2), "mult": st.integers(1, 4), "pose": st.integers(0, 10**6), "ap_btype": st.integers(0, 9),
+        "ap_len": st.sampled_from([1.1, 1.1, 0.8, 1.09, 1.54, 2.0]),
     })
 
 
